@@ -159,10 +159,12 @@ func postgresType(r *compiler.Result, col *compiler.Column, settings config.Comb
 						return StructName(schema.Name+"_"+t.Name, settings)
 					}
 				case *catalog.CompositeType:
-					if notNull {
-						return "string"
+					if rel.Name == t.Name && rel.Schema == schema.Name {
+						if notNull {
+							return "string"
+						}
+						return "sql.NullString"
 					}
-					return "sql.NullString"
 				}
 			}
 		}
